@@ -38,6 +38,11 @@ def Row.unNumpy {β : Type} : Row β → Row β
   | .nparray v => .list v
   | r => r
 
+/-- `row.tolist()` (vocabulary of the translated `_prepare_faces` / `_prepare_cells`) -/
+def Row.tolist {β : Type} (r : Row β) : Row β := .list r.val
+/-- `container[i]` on tagged rows -/
+def rowGet (l : List (Row (List Nat))) (i : Nat) : Row (List Nat) := l.getD i (.list [])
+
 @[simp] theorem Row.val_unNumpy {β : Type} (r : Row β) : r.unNumpy.val = r.val := by cases r <;> rfl
 @[simp] theorem Row.val_tuple {β : Type} (v : β) : (Row.tuple v).val = v := rfl
 theorem Row.unNumpy_not_numpy {β : Type} (r : Row β) : r.unNumpy.isNumpy = false := by cases r <;> rfl
